@@ -278,6 +278,25 @@ def extra_cfgs(tier):
             shims.uninstall(simmod, ('int',))
         return {'kind': 'seq', 'build': build, 'symbolize': symbolize, 'cleanup': cleanup}
 
+    def mem_cfg(dual, wdw, rdw):
+        """synchronous memory whose written word is wider than the read port (content starts at zero; two clocks
+        with fresh inputs each: write a wide word, read it back)"""
+        from py4hw.logic.storage import SynchronousMemory, DualPortSynchronousMemory
+
+        def build(s):
+            ins = {}
+
+            def I(n, w):
+                ins[n] = s.wire(n, w)
+                return ins[n]
+            if dual:
+                DualPortSynchronousMemory(s, 'mem', I('ra_a', 1), I('wa_a', 1), I('we_a', 1), s.wire('rd_a', rdw), I('wd_a', wdw),
+                                          I('ra_b', 1), I('wa_b', 1), I('we_b', 1), s.wire('rd_b', rdw), I('wd_b', wdw))
+            else:
+                SynchronousMemory(s, 'mem', I('ra', 1), I('wa', 1), I('we', 1), s.wire('rd', rdw), I('wd', wdw))
+            return {'ins': ins}
+        return {'kind': 'seq', 'build': build}
+
     def regrv_cfg(w):
         def build(s):
             d, q, r = s.wire('d', w + 2), s.wire('q', w), s.wire('r', 1)
@@ -294,6 +313,9 @@ def extra_cfgs(tier):
             return {'rv': v}
         return {'kind': 'seq', 'build': build, 'symbolize': symbolize}
 
+    for dual in (False, True):
+        for wdw, rdw in (((8, 4), (3, 3)) if quick else ((8, 4), (3, 3), (4, 8), (2, 1), (16, 8))):
+            yield '%sSynchronousMemory written word %d bits, read port %d bits' % ('DualPort' if dual else '', wdw, rdw), mem_cfg(dual, wdw, rdw)
     for w in ([1, 3, 8] if quick else [1, 2, 3, 4, 8, 16, 32]):
         yield 'Constant(symbolic any-sign value)+Not w%d' % w, const_cfg(w)
         yield 'Reg(symbolic any-sign reset_value, wider d) w%d' % w, regrv_cfg(w)
